@@ -603,6 +603,13 @@ def units():
     us.append(Unit("Solution.field_at_position[call contract]", "tdgl.solution.solution:Solution.field_at_position", run_field_at_position, props=["C20", "C08"], timeout=300))
     us.append(Unit("biot_savart_2d[call contract]", EM + ":biot_savart_2d", run_biot_savart_wrapper, props=["C20"], timeout=300))
     us.append(Unit("current_loop_vector_potential", EM + ":current_loop_vector_potential", run_loop_potential, props=["C20"], timeout=300))
+    from checks import solution_common as sc
+    us.append(Unit("Solution.vector_potential_at_position", "tdgl.solution.solution:Solution.vector_potential_at_position",
+                   lambda m=None: sc.run_vector_potential(m, prefixes=("C20.",)), props=["C20", "C08"], timeout=900))
+    us.append(Unit("Solution.load_tdgl_data[current density]", "tdgl.solution.solution:Solution.load_tdgl_data / current_density + tdgl.device.device:Device.K0",
+                   lambda m=None: sc.run_current_density(m, prefixes=("C20.",)), props=["C20", "C08"], timeout=300))
+    us.append(Unit("Mesh.get_quantity_on_site", "tdgl.finite_volume.mesh:Mesh.get_quantity_on_site",
+                   lambda m=None: sc.run_site_average(m, prefixes=("C20.",)), props=["C20", "C13"], timeout=300))
     us.append(_h.bounded_unit("fields from currents on real arrays [bounded]", "tdgl.em / Solution.field_at_position (real)", "C20", _bounded_quick, "biot_savart_loop_potential_and_unit_round_trips", timeout=900))
     return us
 
@@ -683,6 +690,53 @@ def native(seed=0):
                     if not np.allclose(np.asarray(got), ref, rtol=1e-9, atol=1e-30):
                         bad.append(dict(what="Solution.field_at_position of a film at height z0 = 0.75 differs from the Biot-Savart kernel evaluated for a sheet at that height",
                                         vector=vec, current_units=cu_, max_rel_dev=float(np.abs(np.asarray(got) - ref).max() / (np.abs(ref).max() + 1e-300))))
+                # vector potential of the sheet currents against the direct SI sum (mu0/4pi) sum K a / |r - r'|; total = applied + parts
+                Pz = np.array([[0.3, 0.2, 2.0], [-0.8, 0.5, 1.5], [2.0, -1.0, 3.0]])
+                for out_u in (None, "tesla * meter"):
+                    parts = sol.vector_potential_at_position(Pz, units=out_u, return_sum=False)
+                    tot = sol.vector_potential_at_position(Pz, units=out_u)
+                    um = 1e-6
+                    xi_ = sol.device.coherence_length.magnitude
+                    rr = np.sqrt(((Pz[:, None, :2] - sol.device.points[None, :, :]) ** 2).sum(axis=2) + (Pz[:, 2] - 0.75)[:, None] ** 2) * um
+                    for nm in ("supercurrent_density", "normal_current_density"):
+                        K_si = getattr(sol, nm).to("A / m").magnitude
+                        ref = mu_0 / (4 * np.pi) * np.einsum("jk,ij,j->ik", K_si, 1 / rr, sol.device.mesh.areas * xi_ ** 2 * um ** 2)
+                        got = parts[nm].to("tesla * meter").magnitude
+                        n += 1
+                        if not np.allclose(got[:, :2], ref, rtol=1e-9, atol=1e-30) or np.any(got[:, 2] != 0):
+                            bad.append(dict(what=f"Solution.vector_potential_at_position: the {nm} part differs from (mu0/4pi) sum K a / |r - r'| in SI units",
+                                            current_units=cu_, units=out_u, max_rel_dev=float(np.abs(got[:, :2] - ref).max() / (np.abs(ref).max() + 1e-300))))
+                    n += 1
+                    s3 = sum(parts[k_].to("tesla * meter").magnitude for k_ in ("applied", "supercurrent_density", "normal_current_density"))
+                    if not np.allclose(tot.to("tesla * meter").magnitude, s3, rtol=1e-12, atol=1e-30):
+                        bad.append(dict(what="Solution.vector_potential_at_position: the total is not applied + supercurrent + normal parts", current_units=cu_, units=out_u))
+                    n += 1
+                    app = parts["applied"].to("mT * um").magnitude
+                    ref_app = np.asarray(sol.applied_vector_potential(Pz[:, 0], Pz[:, 1], Pz[:, 2]))
+                    if not np.allclose(app[:, :ref_app.shape[1]], ref_app, rtol=1e-12, atol=1e-30):
+                        bad.append(dict(what="Solution.vector_potential_at_position: the applied part is not the applied potential in field*length units", current_units=cu_, units=out_u))
+                # physical sheet current density = K0 (current units / length units) * site average of the dimensionless edge currents
+                n += 1
+                js = sol.device.mesh.get_quantity_on_site(sol.tdgl_data.supercurrent) + sol.device.mesh.get_quantity_on_site(sol.tdgl_data.normal_current)
+                refK = sol.device.K0.to(f"{cu_} / um").magnitude * js
+                if not np.allclose(sol.current_density.to(f"{cu_} / um").magnitude, refK, rtol=1e-9, atol=1e-30):
+                    bad.append(dict(what="Solution.current_density is not K0 times the site-averaged dimensionless current", current_units=cu_))
+        # site average of an edge quantity against a direct loop over the edges
+        msh = dev.mesh
+        qe = rng.normal(size=len(msh.edge_mesh.edges))
+        for vec in (True, False):
+            got = msh.get_quantity_on_site(qe, vector=vec)
+            acc = np.zeros((len(msh.sites), 2))
+            cnt = np.zeros(len(msh.sites))
+            for e_, (a_, b_) in enumerate(msh.edge_mesh.edges):
+                v_ = qe[e_] * msh.edge_mesh.normalized_directions[e_] if vec else np.array([qe[e_], qe[e_]])
+                for s_ in (a_, b_):
+                    acc[s_] += v_
+                    cnt[s_] += 1
+            ref = acc / cnt[:, None] / 2
+            n += 1
+            if not np.allclose(got, ref if vec else ref[:, 0], rtol=1e-12, atol=1e-30):
+                bad.append(dict(what="Mesh.get_quantity_on_site is not half the mean over the incident edges", vector=vec))
         logging.disable(logging.NOTSET)
     except Exception as e:  # noqa
         bad.append(dict(what=f"field_at_position cross-check raised {type(e).__name__}: {str(e)[:120]}"))
@@ -721,7 +775,14 @@ def replay(unit, obl):
     return dict(confirmed=False, evaluations=n, tdgl_file=tdgl.__file__)
 
 
+SOL_ = "tdgl.solution.solution"
 MUTANTS = [
+    dict(name="vector potential: xi not squared in the cell areas", edits=[(SOL_, "areas = device.mesh.areas * device.coherence_length.magnitude**2\n        units = units or f\"{self.field_units} * {device.length_units}\"", "areas = device.mesh.areas * device.coherence_length.magnitude\n        units = units or f\"{self.field_units} * {device.length_units}\"")], units=["Solution.vector_potential_at_position"]),
+    dict(name="vector potential: film height ignored", edits=[(SOL_, "        dz = zs - layer.z0\n        # rho has units", "        dz = zs\n        # rho has units")], units=["Solution.vector_potential_at_position"]),
+    dict(name="vector potential: mu0/2pi", edits=[(SOL_, "A = (ureg(\"mu_0\") / (4 * np.pi) * A).to(units)", "A = (ureg(\"mu_0\") / (2 * np.pi) * A).to(units)")], units=["Solution.vector_potential_at_position"]),
+    dict(name="vector potential: time of the last frame", edits=[(SOL_, "A_kwargs[\"t\"] = self.times[self.solve_step]", "A_kwargs[\"t\"] = self.times[-1]")], units=["Solution.vector_potential_at_position"]),
+    dict(name="current density: total is the supercurrent only", edits=[(SOL_, "return self.supercurrent_density + self.normal_current_density", "return self.supercurrent_density")], units=["Solution.load_tdgl_data[current density]"]),
+    dict(name="site average not halved", edits=[("tdgl.finite_volume.mesh", "vector_val = xp.array([x_group_values, y_group_values]).T / 2", "vector_val = xp.array([x_group_values, y_group_values]).T")], units=["Mesh.get_quantity_on_site"]),
     dict(name="loop azimuth from the absolute position", edits=[(EM, "    phis = np.arctan2(positions[:, 1], positions[:, 0]) + np.pi / 2", "    phis = np.arctan2(positions[:, 1] + loop_center[:, 1], positions[:, 0] + loop_center[:, 0]) + np.pi / 2")], units=["current_loop_vector_potential"]),
     dict(name="loop radius not converted to metres", edits=[(EM, "    a = loop_radius * to_meter\n    current = current * to_amp\n    positions = positions - loop_center", "    a = loop_radius\n    current = current * to_amp\n    positions = positions - loop_center")], units=["current_loop_vector_potential"]),
     dict(name="loop elliptic integrals swapped", edits=[(EM, "    K = special.ellipk(m)\n    E = special.ellipe(m)", "    K = special.ellipe(m)\n    E = special.ellipk(m)")], units=["current_loop_vector_potential"]),
